@@ -58,6 +58,7 @@ const (
 var faultNames = [...]string{"none", "resolver-path", "resolver-kth", "natural-missing", "disk-error", "disk-torn"}
 
 type saveStep struct {
+	move   [3]int               // move[0]==1: before this save, move the move[2]-th non-import declaration of file move[1] to the next file
 	edits  map[int][]edits.Edit // file index (parse order) -> script applied before this save
 	fault  int
 	atFile int // position in Syntax order the fault aims at
@@ -168,6 +169,9 @@ func draw(run *core.Run) *workload {
 				st.edits[fi] = append(st.edits[fi], edits.Script(t, 2, false)...)
 			}
 		}
+		if nfiles > 1 && t.Bool(1, 4) {
+			st.move = [3]int{1, t.Draw(nfiles), t.Draw(6)}
+		}
 		if t.Bool(2, 3) {
 			st.fault = 1 + t.Draw(numFaultKinds-1)
 		}
@@ -196,7 +200,7 @@ func draw(run *core.Run) *workload {
 				es = append(es, fmt.Sprintf("file[%d]:%s", fi, e))
 			}
 		}
-		run.Describe("save#%d fault=%s at Syntax[%d] edits=%v", i, faultNames[s.fault], s.atFile, es)
+		run.Describe("save#%d fault=%s at Syntax[%d] edits=%v move=%v", i, faultNames[s.fault], s.atFile, es, s.move)
 	}
 	return w
 }
@@ -231,6 +235,39 @@ func build(w *workload, pathOf func(i int) string) (*pkgState, error) {
 
 // applyEdits applies a save step's edits; the "only" use for a path-keyed fault is an edit too.
 func applyEdits(ps *pkgState, w *workload, s saveStep) {
+	if s.move[0] == 1 {
+		// refactoring: a declaration moves to another file of the package; the identifiers keep
+		// their Path, so import management must add the imports there and drop them here
+		from := ps.files[s.move[1]]
+		to := ps.files[(s.move[1]+1)%len(ps.files)]
+		var idx []int
+		for i, d := range from.Decls {
+			if gd, ok := d.(*dst.GenDecl); ok && gd.Tok == token.IMPORT {
+				continue
+			}
+			// the declaration that uses the package "only this file uses" stays where it is: the
+			// path-keyed resolver fault is aimed at this file through it
+			pinned := false
+			dst.Inspect(d, func(n dst.Node) bool {
+				if id, ok := n.(*dst.Ident); ok && strings.HasPrefix(id.Path, "only.test/") {
+					pinned = true
+				}
+				return true
+			})
+			if pinned {
+				continue
+			}
+			idx = append(idx, i)
+		}
+		if len(idx) > 1 {
+			i := idx[s.move[2]%len(idx)]
+			d := from.Decls[i]
+			from.Decls = append(from.Decls[:i:i], from.Decls[i+1:]...)
+			to.Decls = append(to.Decls, d)
+			ps.edited[s.move[1]] = true
+			ps.edited[(s.move[1]+1)%len(ps.files)] = true
+		}
+	}
 	for fi := 0; fi < len(w.files); fi++ {
 		if len(s.edits[fi]) > 0 {
 			edits.Apply(ps.files[fi], s.edits[fi])
